@@ -657,11 +657,12 @@ class Engine:
         self.max_decisions = max_decisions
         self.choose_limit = choose_limit
         self.hash_collapse = False
-        # opt-in (harness sets ENG.uf_prune): a feasibility query the incremental solver does not decide
-        # within uf_quick_ms is first tried with * / % abstracted to uninterpreted functions (symx/solve.py;
-        # 'unsat' transfers to the real operators), then repeated with the full timeout
-        self.uf_prune = False
-        self.uf_quick_ms = 1500
+        # opt-in (harness sets ENG.staged_check): a feasibility query the incremental solver does not decide
+        # within staged_quick_ms is handed to a fresh QF_BV tactic solver (much better at unsatisfiable
+        # arithmetic), then tried with * / % abstracted to uninterpreted functions (symx/solve.py; only
+        # 'unsat' transfers), before it counts as unknown
+        self.staged_check = False
+        self.staged_quick_ms = 1500
         self.solver = z3.Solver()
         self.solver.set("timeout", timeout_ms)
         self.stats = dict(paths=0, decisions=0, feas_queries=0, feas_unknown=0, solver_s=0.0,
@@ -714,24 +715,27 @@ class Engine:
     def _check(self, *extra):
         t0 = time.time()
         self.stats["feas_queries"] += 1
-        scoped = bool(extra) or self.uf_prune     # (a scope also selects z3's incremental core from the first query on)
+        scoped = bool(extra) or self.staged_check   # (a scope also selects z3's incremental core from the first query on)
         if scoped:
             self.solver.push()
             self.solver.add(*extra)
-        if self.uf_prune:
-            self.solver.set("timeout", min(self.uf_quick_ms, self.timeout_ms))
+        m = None
+        if self.staged_check:
+            self.solver.set("timeout", min(self.staged_quick_ms, self.timeout_ms))
             r = self.solver.check()
             self.solver.set("timeout", self.timeout_ms)
-            if r == z3.unknown:
+            if r == z3.sat:
+                m = self.solver.model()
+            elif r == z3.unknown:
                 from . import solve
-                if solve.uf_unsat(list(self.pc) + list(extra), min(5000, self.timeout_ms)):
+                r, m = solve.check_fresh(list(self.pc) + list(extra), self.timeout_ms)
+                self.stats["fresh_checks"] = self.stats.get("fresh_checks", 0) + 1
+                if r == z3.unknown and solve.uf_unsat(list(self.pc) + list(extra), min(5000, self.timeout_ms)):
                     r = z3.unsat
                     self.stats["uf_pruned"] = self.stats.get("uf_pruned", 0) + 1
-                else:
-                    r = self.solver.check()
         else:
             r = self.solver.check()
-        m = self.solver.model() if r == z3.sat else None
+            m = self.solver.model() if r == z3.sat else None
         if scoped:
             self.solver.pop()
         self.stats["solver_s"] += time.time() - t0
